@@ -124,6 +124,12 @@ func (p *FunctionalPropertyGenerator) singleTypeClearNonLanguageMapMembers() []j
 func (p *FunctionalPropertyGenerator) multiTypeClearNonLanguageMapMembers() []jen.Code {
 	clearLine := make([]jen.Code, len(p.kinds)+2) // +2 for the unknown, and maybe language map
 	for i, kind := range p.kinds {
+		if p.hasNaturalLanguageMap && p.memberName(i) == langMapMember {
+			// The natural language map is this kind's member: it is
+			// left to the caller, as documented above.
+			clearLine[i] = jen.Empty()
+			continue
+		}
 		if kind.Nilable {
 			clearLine[i] = jen.Id(codegen.This()).Dot(p.memberName(i)).Op("=").Nil()
 		} else {
